@@ -114,6 +114,12 @@ class Facts(object):
                     if kind in ("PUBLISH", "SUBSCRIBE", "UNSUBSCRIBE"):
                         rid = marker_of(kind, f)
                         ri = self.info.get(rid) if rid is not None else None
+                        if (ri is None or ri.kind != kind.lower()) and f.get("id") is not None:
+                            # content no longer recognisable: fall back on the identifier of the open request
+                            rid2 = open_by_id.get((w.conns[e.c].a, f["id"]))
+                            r2 = self.info.get(rid2) if rid2 is not None else None
+                            if r2 is not None and r2.kind == kind.lower() and r2.tx:
+                                ri = r2
                         if ri is not None and ri.kind == kind.lower():
                             ri.tx.append(tx)
                         else:
